@@ -1,0 +1,20 @@
+//go:build verif
+
+package api //nolint:revive
+
+// Machine-checked contracts for /verif (govc). Comment-only: compiled only with -tags verif, adds no code.
+
+//@ func paginate2
+//@   property C44
+//@   requires itemsPerPage >= 1 && itemsPerPage <= 2147483647 && page >= 0 && page <= 2147483647
+//@   def items() reflect.Value = rvElem(rvOf(itemsPtr))
+//@   assert-call (reflect.Value).Set: v == rvElem(rvOf(caller_itemsPtr)) && rvOff(x) == rvOff(v) + pgStart(rvLen(v), caller_itemsPerPage, caller_page) && rvLen(x) == pgEnd(rvLen(v), caller_itemsPerPage, caller_page) - pgStart(rvLen(v), caller_itemsPerPage, caller_page)
+//@   ensures [page-count] result == pgCount(rvLen(items()), itemsPerPage)
+
+//@ func paginate
+//@   property C44
+//@   def ippOK() bool = itemsPerPageStr == "" || (parseUintOK(itemsPerPageStr, 10, 31) && parseUintVal(itemsPerPageStr, 10, 31) != 0)
+//@   def pageOK() bool = pageStr == "" || parseUintOK(pageStr, 10, 31)
+//@   assert-call paginate2: arg0 == caller_itemsPtr && itemsPerPage == ite(caller_itemsPerPageStr == "", 100, parseUintVal(caller_itemsPerPageStr, 10, 31)) && page == ite(caller_pageStr == "", 0, parseUintVal(caller_pageStr, 10, 31))
+//@   ensures [rejects-invalid] (result1 != nil) == !(ippOK() && pageOK())
+//@   ensures [page-count] result1 == nil ==> result0 == pgCount(rvLen(rvElem(rvOf(itemsPtr))), ite(itemsPerPageStr == "", 100, parseUintVal(itemsPerPageStr, 10, 31)))
